@@ -113,7 +113,12 @@ def r234(ctx: Ctx, roles, d: Func) -> None:
     lk_nodes = [n for n in g.reachable() if n.ast is not None and n.kind in ("stmt", "cond") and any(x is lk for x in walk_own(n.ast))]
     ctx.require(len(lk_nodes) >= 1, "lookup node not found in CFG")
     tries = [t for t in own_nodes(d.node) if isinstance(t, ast.Try) and any(x is lk for b in t.body for x in ast.walk(b))]
-    ctx.require(len(tries) == 1, "the lookup is not inside exactly one try")
+    lookup_in_try = len(tries) == 1
+    if not lookup_in_try:
+        # the lookup may sit in front of the try when it is range-guarded (then no id may make it raise: judged per id
+        # below); the try that matters for R3/R4 is the one around the payload parse
+        tries = [t for t in own_nodes(d.node) if isinstance(t, ast.Try) and any(isinstance(x, ast.Call) and isinstance(x.func, ast.Attribute) and x.func.attr in ("MergeFromString", "ParseFromString") for b in t.body for x in ast.walk(b))]
+    ctx.require(len(tries) == 1, "neither the lookup nor the payload parse is inside exactly one try")
     tr = tries[0]
     dispatch = [n for n in g.nodes if n.kind == "dispatch" and n.ast is tr]
     handlers = [n for n in g.reachable() if n.kind == "handler" and any(n.ast is h for h in tr.handlers)]
@@ -184,7 +189,7 @@ def r234(ctx: Ctx, roles, d: Func) -> None:
             if not hit and not explicit and g.exit in reach and not (set(subs_lookup) & reach):
                 acts = [n for n in reach if n.ast is not None and n.kind in ("stmt", "cond") and (any(res.callees(d, c).kind != "lib" for c in node_calls(n)) or (n.kind == "stmt" and isinstance(n.ast, (ast.Assign, ast.AugAssign)) and any(isinstance(x, ast.Attribute) and isinstance(x.ctx, ast.Store) for x in walk_own(n.ast))))]
                 quiet = not acts
-            unknown_ok = (not hit and bool(explicit)) or (bool(hit) and outcome in ("raises",)) or (bool(hit) and outcome == "missing") or quiet
+            unknown_ok = (not hit and bool(explicit)) or (bool(hit) and outcome in ("raises",) and lookup_in_try) or (bool(hit) and outcome == "missing") or quiet
             ctx.ob("C12.R2", d, f"type {i}: undefined id ends on the unknown-type path", unknown_ok and idx_ok, f"{outcome}; explicit raise reachable: {bool(explicit)}")
     ctx.analysed["type_points_walked"] = points
 
@@ -194,7 +199,18 @@ def r234(ctx: Ctx, roles, d: Func) -> None:
             return ("IE", True)
         return None
 
+    has_ie = any(is_index_error_atom(n.ast) for n in g.reachable() if n.ast is not None)
     for h in handlers:
+        if not has_ie and not lookup_in_try:
+            # no lookup inside the try: the handler has no unknown-type branch (the ids are sorted out before the
+            # lookup, judged per id above); only the bad-payload rule applies to it
+            reach_b = walk(g, {}, lambda n: None, start=h)
+            rep = ctx.repo.func("connection", "APIConnection.report_fatal_error")
+            rep_nodes = [n for n in reach_b if any(rep in res.callees(d, c).funcs for c in node_calls(n))]
+            unreported = walk(g, {}, lambda n: None, start=h, blocked=set(rep_nodes))
+            leaves = [n for n in unreported if (isinstance(n.ast, ast.Raise) or n is g.exit) and n not in rep_nodes]
+            ctx.ob("C12.R4", d, "bad payload is reported as a fatal error", len(rep_nodes) >= 1 and not leaves, "a decode failure can leave the handler without closing the connection")
+            continue
         reach_u = walk(g, {"IE": True}, classify_ie, start=h)
         effects_u = []
         for n in reach_u:
